@@ -66,6 +66,18 @@ CLAIMED['C15'] = (
     'classes x attributes enumerated from the code (stated), sizes and values decided by CrossHair/z3; BolometerCamera '
     '(no broadcast attributes, needs full foil/slit geometry) and the ndarray value kind are outside the claim.',
     'DESIGN.md §4 C15', 'CrossHair 0.0.110: symbolic execution of the real Python classes with z3, generated PEP316 contracts')
+CLAIMED['C13'] = (
+    'Every wrapper class (IsoMapper2D/3D, Swizzle2D, Swizzle3D for all 27 shapes, Slice2D/3D for every axis selector, '
+    'AxisymmetricMapper, VectorAxisymmetricMapper, ClampInput/Output 1-3D, CylindricalTransform, VectorCylindricalTransform, '
+    'the six periodic transforms) is executed (translated source) with the wrapped function a recording uninterpreted '
+    'function and symbolic real arguments; z3 proves the wrapped function received exactly the mathematically mapped '
+    'argument and the result is the mapped value (vectors rotated by the toroidal angle). The periodic kernel remainder() '
+    'is additionally decided in IEEE-754 double mode (z3 Float64) for every finite x and positive period: result in '
+    '[0, period). All samplers are executed for sample counts <=3 (quick) / <=4 (thorough) per axis with symbolic ranges: '
+    'entry [i,j,k] is the function at (x_i,y_j,z_k) on the evenly spaced grid including both end points.',
+    'fmod in double mode by its C99 contract; sqrt/atan2 by defining equations; numpy.linspace modelled; PolygonMask2D not '
+    'claimed (pure delegation to raysect triangulation).',
+    'DESIGN.md §4 C13', TECH + '; z3 Float64 for the periodic kernel')
 NOT_YET = {}
 props = [json.loads(l) for l in open(os.path.join(HERE, 'properties.jsonl'))]
 checks, na = [], []
